@@ -886,11 +886,15 @@ def main():
             if rc_lc != 0:
                 broken.append({'what': 'leanchecker', 'detail': out_lc[-400:]})
             # the source-tie modules that hold are re-checked independently too (informational, like the ties themselves)
-            for what, u in (info.get('source_tie') or {}).get('units', {}).items():
-                if u.get('held'):
+            held_units = [(what, u) for what, u in (info.get('source_tie') or {}).get('units', {}).items() if u.get('held')]
+            if held_units:
+                t_lc = time.time()
+                rc_all, _ = sh(['lake', 'env', 'leanchecker'] + [SOURCE_TIES[w]['module'] for w, _ in held_units], cwd=LEAN, timeout=3600)
+                for what, u in held_units:
                     mod = SOURCE_TIES[what]['module']
-                    t_lc = time.time()
-                    rc2_, out2_ = sh(['lake', 'env', 'leanchecker', mod], cwd=LEAN, timeout=3600)
+                    rc2_ = 0
+                    if rc_all != 0:          # find which one it rejects
+                        rc2_, _ = sh(['lake', 'env', 'leanchecker', mod], cwd=LEAN, timeout=3600)
                     u['leanchecker'] = {'rc': rc2_, 'wall_s': round(time.time() - t_lc, 1)}
                     if rc2_ != 0:
                         u['held'] = False
